@@ -13,6 +13,7 @@ global size_of usize == 8;
 //@@ include prelude/std_specs.rs
 //@@ include prelude/spec_zmtp.rs
 //@@ include prelude/message_items.rs
+//@@ include prelude/spec_zmtp_lemmas.rs
 
 //@@ include prelude/codec_types.rs
 
@@ -149,6 +150,11 @@ impl vstd::std_specs::convert::TryFromSpecImpl<Bytes> for ZmqCommand {
 //@ ret r
 //@ region "let command = match &buf[..command_len]"
 //@|        let command = match assumed_command_name(&buf, command_len) { Some(c) => c, None => return Err(CodecError::Command("Unknown command received")) }
+//@ region-text
+//@|        let command = match &buf[..command_len] {
+//@|            b"READY" => ZmqCommandName::READY,
+//@|            _ => return Err(CodecError::Command("Unknown command received")),
+//@|        }
 //@ spec
 //@|        ensures
 //@|            r is Ok <==> rfc_command_ok(b_view(&buf)),
@@ -186,6 +192,8 @@ pub open spec fn item_matches(m: Message, it: SItem) -> bool {
 }
 
 // ---- the codec (src/codec/zmq_codec.rs) ----
+//@@ consts src/codec/zmq_codec.rs
+//@@ consts src/codec/command.rs
 //@ item src/codec/zmq_codec.rs :: struct Frame
 //@ end
 //@ item src/codec/zmq_codec.rs :: enum DecoderState
